@@ -1,4 +1,4 @@
------------------------------- MODULE PubNames ------------------------------
+------------------------------ MODULE PubServerNames ---------------------------
 (* Concrete handles, URIs and contents used by the model-checking and      *)
 (* trace configurations of PubServer / RepoFiles.                          *)
 \* handles: "a", "ab" (string-prefix look-alike), "a/b" (path-prefix, nested
